@@ -32,6 +32,43 @@ fn check_open(damaged: &RawStore) -> Result<&'static str, Value> {
     Ok("state-of-intact-subset")
 }
 
+/// The same damaged storage written to a directory and opened through the URL constructor
+/// (Melda::new_from_url("file://...")): an error, or the state of the intact, causally complete subset.
+fn check_open_url(damaged: &RawStore) -> Result<&'static str, Value> {
+    use melda::adapter::Adapter;
+    let dir = crate::props::c17::fresh_path();
+    {
+        let fs = melda::filesystemadapter::FilesystemAdapter::new(&dir).map_err(|e| json!({"error": "scratch directory", "message": e.to_string()}))?;
+        for (k, v) in damaged {
+            // (the directory backend refuses nothing: names are file names)
+            if k.is_empty() || k.contains('/') {
+                continue;
+            }
+            let _ = fs.write_object(k, v);
+        }
+    }
+    let url = format!("file://{}", dir);
+    set_trace("C10 new_from_url(damaged)");
+    let r = crate::guard::call("new_from_url", || melda::melda::Melda::new_from_url(&url).map_err(|e| e.to_string()));
+    let out = match r {
+        Err(p) => Err(json!({"error": "new_from_url panicked", "panic": p})),
+        Ok(Err(_)) => Ok("error-reported"),
+        Ok(Ok(m)) => {
+            let v = view(&m);
+            let want = fresh_view(&refmodel::complete_substore(damaged), "C10 open(intact complete subset)");
+            if v.to_string().contains("panic:") {
+                Err(json!({"error": "an accessor panicked on the replica opened by URL", "view": v}))
+            } else if v != want {
+                Err(json!({"error": "the replica opened by URL differs from the state of the intact, causally complete subset", "differs": diff_keys(&v, &want), "view": v, "expected": want}))
+            } else {
+                Ok("state-of-intact-subset")
+            }
+        }
+    };
+    let _ = std::fs::remove_dir_all(&dir);
+    out
+}
+
 /// presents damaged items to a live replica that has not loaded them yet
 fn check_refresh(base: &RawStore, extra: &RawStore) -> Result<&'static str, Value> {
     let (mut m, st) = match fresh_on(base, "C10 live replica") {
@@ -590,6 +627,24 @@ pub fn run(thorough: bool) {
                     let mut b = bad.lock().unwrap();
                     if b.iter().filter(|(c, _)| c == class).count() < 1 {
                         b.push((class.clone(), d));
+                    }
+                }
+            }
+            if refresh.is_some() {
+                // (the variants that are also presented to a live replica are, in addition, written to a directory
+                // and opened through the URL constructor)
+                evals.fetch_add(1, Ordering::Relaxed);
+                let r = crate::guard::call("check_open_url", || check_open_url(damaged)).unwrap_or_else(|p| Err(json!({"error": "harness-level panic", "panic": p})));
+                match r {
+                    Ok(o) => *outcomes.lock().unwrap().entry(format!("{}:open-by-url:{}", class.split(':').next().unwrap(), o)).or_insert(0) += 1,
+                    Err(mut d) => {
+                        d["damage"] = json!(format!("{}, opened with Melda::new_from_url(file://...)", desc));
+                        d["input"] = json!({"history_of_store": hist});
+                        let mut b = bad.lock().unwrap();
+                        let cl = format!("{}:open-by-url", class);
+                        if b.iter().filter(|(c, _)| *c == cl).count() < 1 {
+                            b.push((cl, d));
+                        }
                     }
                 }
             }
